@@ -46,7 +46,8 @@ CFG = dict(
         "concludes `claim \\/ Collision H`",
         "modelled (transliterated): TxHeader.innerHash/Alh (versions 0/1, truncating casts, panic on other versions), "
         "leafFor, advanceLinearHash, VerifyLinearProof, VerifyLinearAdvanceProof, VerifyDualProof, VerifyDualProofV2, "
-        "EntrySpecDigest_v0/_v1, TxEntryDigest_v1_1/_v1_2, store.VerifyInclusion; the Merkle verifiers and their "
+        "EntrySpecDigest_v0/_v1, TxEntryDigest_v1_1/_v1_2, store.VerifyInclusion; ahtree.VerifyConsistency = "
+        "verify_consistency_fixed of coq/Merkle/VerifyFixed.v (05f2785); the Merkle verifiers and their "
         "soundness / inclusion completeness come from C08 (coq/Merkle). The honest proofs of Proofs/Gen.v (what the "
         "completeness theorems are about, consistency terms = cons_ref of coq/Merkle/AHTCons.v) are compared with the "
         "store's on every run; the AHtree digest-log model and the completeness of VerifyConsistency come from C08, the pkg/client and pkg/verification flows (which side is "
@@ -58,7 +59,11 @@ CFG = dict(
         "Go values the model cannot represent are not generated: negative Version / NEntries, TxMetadata with an extra "
         "attribute longer than 256 bytes (the Go type refuses it)",
     ],
-    assumptions=["client_step (Proofs/Session.v) models the source/target selection and state "
+    assumptions=["session theorems: `session` of Proofs/Session.v (every call accepted, the client's trusted pair is the "
+                 "source or the target of the call, the new state is the call's target); good_v2 / good_v1 = headers within "
+                 "the Go field ranges (hdr_valid), 32-byte proof terms, and for VerifyDualProof BlTxID = ID - 1 on every "
+                 "header carried by the proofs",
+                 "client_step (Proofs/Session.v) models the source/target selection and state "
                  "advance of VerifiedTxByID / verifiedGet only (no signature, no returned-Tx comparison)",
                  "proof terms and digests are 32-byte values (Go type [sha256.Size]byte)",
                  "headers inside proofs satisfy hdr_valid (Go field ranges, Version in {0,1}, NEntries < 2^16 in version 0 "
